@@ -147,6 +147,11 @@ pub(crate) struct CoreInner {
 	/// Visible sequence number - the highest sequence number that is visible to readers.
 	/// Shared with CommitPipeline for coordinated updates.
 	pub(crate) visible_seq_num: Arc<AtomicU64>,
+
+	/// WAL segment -> number of batches appended to it that have not reached a
+	/// memtable yet (the commit pipeline logs under its lock and applies outside
+	/// it). A flush must not release such a segment.
+	pub(crate) wal_inflight: parking_lot::Mutex<std::collections::BTreeMap<u64, usize>>,
 }
 
 impl CoreInner {
@@ -207,6 +212,7 @@ impl CoreInner {
 			level_manifest,
 			snapshot_tracker: SnapshotTracker::new(),
 			active_txn_tracker: Arc::new(crate::tracker::ActiveTxnTracker::new()),
+			wal_inflight: parking_lot::Mutex::new(std::collections::BTreeMap::new()),
 			vlog,
 			wal: WalManager::new(wal_instance),
 			versioned_index,
@@ -317,16 +323,24 @@ impl CoreInner {
 		#[cfg(surrealkv_verif)]
 		crate::verif::yp("flush:before_manifest");
 		// Step 3: Prepare atomic changeset
+		//
+		// Flushing this memtable normally releases every WAL segment up to its
+		// own (`log_number = wal_number + 1`). But a batch is appended to the
+		// WAL under the commit lock and applied to a memtable outside it: a
+		// batch logged in segment N can sit in a LATER memtable (a rotation
+		// slipped in between) or still be on its way to one. Segment N must
+		// then survive this flush. Look at the batches in flight first, then
+		// at the memtables (a batch leaves the first set only after it has
+		// entered the second).
+		let mut oldest_needed = self.wal_inflight.lock().keys().next().copied().unwrap_or(u64::MAX);
+		{
+			let active = self.active_memtable.read()?;
+			if !Arc::ptr_eq(&*active, &memtable) {
+				oldest_needed = oldest_needed.min(active.oldest_batch_wal());
+			}
+		}
 		let mut changeset = ManifestChangeSet::default();
 		changeset.new_tables.push((0, Arc::clone(&table)));
-		changeset.log_number = Some(wal_number + 1);
-
-		log::debug!(
-			"Changeset prepared: table_id={}, log_number={} (WAL #{:020} flushed)",
-			table_id,
-			wal_number + 1,
-			wal_number
-		);
 
 		// Step 4: Apply changeset atomically
 		// Lock order: level_manifest → immutable_memtables
@@ -334,6 +348,17 @@ impl CoreInner {
 		#[cfg(surrealkv_verif)]
 		crate::verif::yp_held("flush:holding_manifest");
 		let mut memtable_lock = self.immutable_memtables.write()?;
+		for entry in memtable_lock.iter().filter(|e| e.table_id != table_id && !Arc::ptr_eq(&e.memtable, &memtable)) {
+			oldest_needed = oldest_needed.min(entry.memtable.oldest_batch_wal());
+		}
+		let new_log_number = (wal_number + 1).min(oldest_needed).max(manifest.get_log_number());
+		changeset.log_number = Some(new_log_number);
+		log::debug!(
+			"Changeset prepared: table_id={}, log_number={} (WAL #{:020} flushed)",
+			table_id,
+			new_log_number,
+			wal_number
+		);
 
 		let rollback = manifest.apply_changeset(&changeset)?;
 		if let Err(e) = write_manifest_to_disk(&manifest) {
@@ -341,7 +366,7 @@ impl CoreInner {
 			let error = Error::Other(format!(
 				"Failed to atomically update manifest: table_id={}, log_number={}: {}",
 				table_id,
-				wal_number + 1,
+				new_log_number,
 				e
 			));
 			self.error_handler.set_error(error.clone(), BackgroundErrorReason::ManifestWrite);
@@ -359,7 +384,7 @@ impl CoreInner {
 		log::info!(
 			"Manifest updated atomically: table_id={}, log_number={}, last_sequence={}",
 			table_id,
-			wal_number + 1,
+			new_log_number,
 			manifest.get_last_sequence()
 		);
 
@@ -493,7 +518,9 @@ impl CoreInner {
 		crate::verif::yp("flush:installed");
 		// Schedule async WAL cleanup
 		let wal_dir = self.wal.read().get_dir_path().to_path_buf();
-		let min_wal_to_keep = entry.wal_number + 1;
+		// What the flush decided to keep (it can be older than this memtable's
+		// own segment + 1, see flush_immutable_to_sst).
+		let min_wal_to_keep = self.level_manifest.read()?.get_log_number().min(entry.wal_number + 1);
 
 		tokio::spawn(async move {
 			match cleanup_old_segments(&wal_dir, min_wal_to_keep) {
@@ -924,50 +951,8 @@ impl LsmCommitEnv {
 			task_manager: Some(task_manager),
 		})
 	}
-}
 
-impl CommitEnv for LsmCommitEnv {
-	// Write batch to WAL with inline values (synchronous operation).
-	// VLog separation is deferred to memtable flush time.
-	fn write(&self, batch: &Batch, seq_num: u64, sync: bool) -> Result<Batch> {
-		let mut processed_batch = Batch::new(seq_num);
-
-		for (_, entry, _current_seq_num, timestamp) in batch.entries_with_seq_nums()? {
-			// Always store values inline — VLog separation deferred to flush.
-			// Versioned index (B+tree) writes are also deferred to flush time,
-			// so the B+tree stores value pointers (consistent with SSTables).
-			let encoded_value = match &entry.value {
-				Some(value) => {
-					let value_location = ValueLocation::with_inline_value(value.clone());
-					Some(value_location.encode())
-				}
-				None => None,
-			};
-
-			processed_batch.add_record(entry.kind, entry.key.clone(), encoded_value, timestamp)?;
-		}
-
-		// A batch that cannot fit into an empty memtable would be logged and
-		// then fail half-way through its memtable apply. Refuse it here, before
-		// anything is written.
-		if MemTable::can_never_fit(&processed_batch, self.core.opts.max_memtable_size) {
-			return Err(Error::BatchTooLarge);
-		}
-
-		// Write to WAL for durability
-		let enc_bytes = processed_batch.encode()?;
-		let mut wal_guard = self.core.wal.write();
-		wal_guard.append(&enc_bytes)?;
-		if sync {
-			wal_guard.sync()?;
-		}
-		drop(wal_guard);
-
-		Ok(processed_batch)
-	}
-
-	/// Apply batch to memtable with retry on arena full.
-	fn apply(&self, batch: &Batch) -> Result<()> {
+	fn apply_inner(&self, batch: &Batch) -> Result<()> {
 		// A batch that is accepted here fits into an empty memtable (see
 		// `write`). When the active memtable is full it is rotated out and the
 		// batch goes to the fresh one - but `apply` runs outside the commit
@@ -1005,6 +990,70 @@ impl CommitEnv for LsmCommitEnv {
 				Err(e) => return Err(e),
 			}
 		}
+	}
+}
+
+impl CommitEnv for LsmCommitEnv {
+	// Write batch to WAL with inline values (synchronous operation).
+	// VLog separation is deferred to memtable flush time.
+	fn write(&self, batch: &Batch, seq_num: u64, sync: bool) -> Result<Batch> {
+		let mut processed_batch = Batch::new(seq_num);
+
+		for (_, entry, _current_seq_num, timestamp) in batch.entries_with_seq_nums()? {
+			// Always store values inline — VLog separation deferred to flush.
+			// Versioned index (B+tree) writes are also deferred to flush time,
+			// so the B+tree stores value pointers (consistent with SSTables).
+			let encoded_value = match &entry.value {
+				Some(value) => {
+					let value_location = ValueLocation::with_inline_value(value.clone());
+					Some(value_location.encode())
+				}
+				None => None,
+			};
+
+			processed_batch.add_record(entry.kind, entry.key.clone(), encoded_value, timestamp)?;
+		}
+
+		// A batch that cannot fit into an empty memtable would be logged and
+		// then fail half-way through its memtable apply. Refuse it here, before
+		// anything is written.
+		if MemTable::can_never_fit(&processed_batch, self.core.opts.max_memtable_size) {
+			return Err(Error::BatchTooLarge);
+		}
+
+		// Write to WAL for durability
+		let enc_bytes = processed_batch.encode()?;
+		let mut wal_guard = self.core.wal.write();
+		let segment = wal_guard.get_active_log_number();
+		wal_guard.append(&enc_bytes)?;
+		if sync {
+			wal_guard.sync()?;
+		}
+		// Logged in `segment`, not in any memtable yet (apply runs outside the
+		// commit lock): keep the segment alive until apply has run. Registered
+		// while the WAL lock is still held, so no rotation can come in between.
+		processed_batch.wal_number = segment;
+		*self.core.wal_inflight.lock().entry(segment).or_insert(0) += 1;
+		drop(wal_guard);
+
+		Ok(processed_batch)
+	}
+
+	/// Apply batch to memtable with retry on arena full.
+	fn apply(&self, batch: &Batch) -> Result<()> {
+		let result = self.apply_inner(batch);
+		// The batch is in a memtable now (which remembers its segment), or it
+		// failed: either way it is no longer "logged but not applied".
+		if batch.wal_number != u64::MAX {
+			let mut inflight = self.core.wal_inflight.lock();
+			if let Some(n) = inflight.get_mut(&batch.wal_number) {
+				*n -= 1;
+				if *n == 0 {
+					inflight.remove(&batch.wal_number);
+				}
+			}
+		}
+		result
 	}
 
 	// Check for background errors before committing
